@@ -383,14 +383,14 @@ CHECKS["C19"] = {
         H("opentype/gtab/builder", _B, "VerifH_C19_templates", ["done"], quick={"timeout": 100}),
         H("opentype/gtab/builder", _B, "VerifH_C19_roundtrip", ["done"], quick={"params": {"fonts": 2, "maxgid": 3, "vrfields": 1}, "timeout": 280, "shards": 11},
           thorough={"params": {"fonts": 4, "maxgid": 7}, "timeout": 3000, "shards": 11}),
-        H("opentype/gtab/builder", _B, "VerifH_C19_multi", ["done"], quick={"timeout": 280, "shards": 6}),
+        H("opentype/gtab/builder", _B, "VerifH_C19_multi", ["done"], quick={"timeout": 280, "shards": 8}),
         H("opentype/gtab/builder", _B, "VerifH_C19_nocmap", ["done"], quick={"timeout": 280, "shards": 12}),
         H("opentype/gtab/builder", _B, "VerifH_C19_sched", ["done"], quick={"params": {"preemptions": 2}, "timeout": 280, "shards": 3}, thorough={"params": {"preemptions": 4}, "timeout": 3000, "shards": 3}),
         H("opentype/gtab/builder", _B, "VerifH_C19_text", ["accepted", "rejected"], quick={"params": {"window": 1}, "timeout": 280, "shards": 12},
           thorough={"params": {"window": 2}, "timeout": 3000, "shards": 12}),
     ],
     "level_text": "Bounded symbolic execution of builder.Parse / ExplainGsub / ExplainGpos including the lexer, string-decoder and parser goroutines: the engine runs interpreted goroutines with a channel model (unbuffered and buffered channels, close, range), reports 'all goroutines are asleep' as a deadlock, a panic in any goroutine as a crash and goroutines that can never finish as leaks.  Texts are valid descriptions with a window of arbitrary bytes; lookup lists have concrete shape with symbolic flags, glyph ids, value records and nested actions.",
-    "bounds": {"quick": "12 valid descriptions (GSUB 1-6, GPOS 1-4, all subtable alternatives the language has syntax for) with every window of 1 arbitrary ASCII byte [thorough: 2 bytes] at every position, over a font of 8 named and mapped glyphs; round trip Parse(Explain(L)) == L for 11 lookup kinds (GSUB 1.1/1.2/2.1/3.1/4.1 with two ligatures, context 5.1, class based context 5.2 with rules for two first classes, chained context 6.3, GPOS 1.1/1.2/2.1) with all 8 subsets of the ignore flags, glyph ids symbolic in 1..3 [1..7 thorough], value records (nil or not) with one field over all of int16 and two fields present/absent [thorough: all three over int16], nested action indices symbolic uint16, over 2 fonts (named and mapped / neither) [thorough: all 4 combinations]; goroutine schedule: deterministic (run until blocked) in these harnesses; all interleavings of the lexer and parser goroutines at channel-operation granularity with at most 2 [thorough: 4] preemptive context switches for 3 short descriptions (12..17 bytes, up to 8 tokens, one of them over two lines) with one arbitrary ASCII byte at any position",
+    "bounds": {"quick": "12 valid descriptions (GSUB 1-6, GPOS 1-4, all subtable alternatives the language has syntax for) with every window of 1 arbitrary ASCII byte [thorough: 2 bytes] at every position, over a font of 8 named and mapped glyphs; round trip Parse(Explain(L)) == L for 11 lookup kinds (GSUB 1.1/1.2/2.1/3.1/4.1 with two ligatures, context 5.1, class based context 5.2 with rules for two first classes, chained context 6.3, GPOS 1.1/1.2/2.1) with all 8 subsets of the ignore flags, glyph ids symbolic in 1..3 [1..7 thorough], value records (nil or not) with one field over all of int16 and two fields present/absent [thorough: all three over int16], nested action indices symbolic uint16, over 2 fonts (named and mapped / neither) [thorough: all 4 combinations]; lookups with two or three subtables (every order of two alternatives of GPOS 1, 2, 3, 4, GSUB 5, 6 incl. class based formats) with symbolic flags; goroutine schedule: deterministic (run until blocked) in these harnesses; all interleavings of the lexer and parser goroutines at channel-operation granularity with at most 2 [thorough: 4] preemptive context switches for 3 short descriptions (12..17 bytes, up to 8 tokens, one of them over two lines) with one arbitrary ASCII byte at any position",
                "thorough": "window of 2 bytes"},
     "outside": ["texts further than a 2-byte window from the 12 templates (random / grammar-derived texts)", "non-ASCII bytes in the window unless param ascii=0", "GPOS 2.2/3/4 and class based contexts in the symbolic round trip (covered by the concrete templates only)", "real OS-thread interleavings (GOMAXPROCS): goroutines are interleaved at channel operations", "numbers with more than 18 digits"],
     "assumptions": ["goroutines communicate through channels only (interleaving at channel operations is then exhaustive)", "lookup lists in the normal form the parser produces (coverage order, value record nil iff all zero)"],
